@@ -89,6 +89,11 @@ def check (st : St) (op obs : String) : St × String :=
   match f with
   | ["case", _] => ({}, "ok")
   | ["open", role] => ({ st with replica := role == "replica" }, "ok")
+  | ["reopen"] =>
+    -- whatever is on disk, a restart answers (starts or refuses to start): it never panics or hangs
+    -- (panic / hang are caught above); locks are gone
+    ({ st with ref := none, prev := none, prevObsTxid := none, lastMax := 0 }, if obs == "ok" || obs == "err open" then "ok" else s!"FAIL restart neither succeeded nor failed cleanly: {obs.take 60}")
+  | ["expect-recovered"] => (st, "ok")
   | ["crash-begin"] => ({ st with pre := some (st.posTxid, st.posChk, st.lastImg), post := none }, "ok")
   | ["crash-end"] => ({ st with awaitPost := true }, "ok")
   | ["crashpoint", _] =>
